@@ -176,12 +176,18 @@ def exec_while(I, node, fr):
         I.exec_block(node.orelse, fr)
         return
     v0 = eval_variant(I, lc, fr)
+    ex0 = None
+    if lc.get("exit_when"):
+        ex0 = zbool(I.truthy(I.E.eval_spec(I, lc["exit_when"], fr, {})))
     try:
         I.exec_block(node.body, fr)
     except BreakSig:
         return
     except ContinueSig:
         pass
+    if ex0 is not None:
+        # progress: an iteration that starts in the exit condition must leave the loop (return / raise / break)
+        st.oblige("%s::loop-exit-when::%s" % (fr.finfo.qualname, label), z3.Not(ex0))
     check_invs(I, lc, fr, "loop-preserve")
     if v0 is not None:
         v1 = eval_variant(I, lc, fr)
